@@ -286,6 +286,35 @@ func runC09(env *Env) {
 			in.WaitCease(tmoStep)
 		}})
 	}
+	{ // engine runs of C01: seeded block programs driven by a seeded script
+		brng := rand.New(rand.NewSource(env.Seed + 909))
+		nb := 6
+		if env.Thorough() {
+			nb = 30
+		}
+		for i := 0; i < nb; i++ {
+			g := &blkGen{rng: brng, full: true, ends: i%2 == 1}
+			b := g.gen(4+brng.Intn(6), 3, true)
+			if i%3 == 0 {
+				b = g.wrap(b, 1)
+			}
+			if gwInIncl(b, false) {
+				continue
+			}
+			env0 := [4]bool{brng.Intn(2) == 0, brng.Intn(2) == 0, brng.Intn(2) == 0, false}
+			inLoop := map[int]int{}
+			blkTasksInLoop(b, false, inLoop, 0)
+			sc := blkScript{seed: env.Seed*1000 + int64(i), inLoop: inLoop}
+			vars := map[string]any{}
+			for k, v := range env0 {
+				vars[fmt.Sprintf("v%d", k)] = v
+			}
+			progs = append(progs, prog{"block program " + b.Coq(), BlkProg(b), vars, func(in *Inst) {
+				ch, wr := sc.funcs()
+				DriveBlk(in, b, env0, ch, wr, 60)
+			}})
+		}
+	}
 	reps := 3
 	if env.Thorough() {
 		reps = 30
